@@ -28,6 +28,7 @@ META = dict(
     technique="Coq proof (induction on N, path algebra) + verified checkers + exact set correspondence",
 )
 
+import json
 import numpy as np
 from . import gen, starcase as sc
 from .lib import CoqFailure
@@ -108,22 +109,151 @@ def lookup_queries(S, crys, chem, sts, rng, nq):
     return qs, bad
 
 
+
+# ---- history tier: ONE StarSet object driven through a history of operations ---------------------------
+def full_lookup_check(S, crys, chem, sts, universe, rng, cap):
+    """look-up consistency against the state list for every state of `universe` (all shells ever reachable + origins)
+    or a sample of it: members -> their own index and star, everything else -> None / not contained; and the
+    dictionary itself holds exactly the current states.  Returns (queries for Coq, violations)."""
+    from onsager.crystalStars import PairState
+    bad, qs = [], []
+    pos = {s: x for x, s in enumerate(sts)}
+    non = sorted(universe - set(sts))
+    if len(non) > cap: non = rng.sample(non, cap)
+    mem = list(sts) if len(sts) <= cap else rng.sample(list(sts), cap)
+    for s in mem + non:
+        PS = PairState.fromcrys_latt(crys, chem, (s[0], s[1]), np.array(s[2][:crys.dim], dtype=int))
+        a, b, c = S.stateindex(PS), S.starindex(PS), (PS in S)
+        ea = pos.get(s); eb = None if ea is None else int(S.index[ea])
+        if len(qs) < 14 or (ea is None and a is not None and len(qs) < 20): qs.append((s, a, b))
+        if a != ea or b != eb or c != (ea is not None):
+            bad.append(("lookup", "stateindex/starindex/__contains__ of %r: got %r %r %r, the state list says %r %r" % (s, a, b, c, ea, eb),
+                        {"state": s}))
+            if len(bad) >= 4: break
+    d = getattr(S, "indexdict", None)
+    if d is not None:
+        keys = set(sc.ps_of(k) for k in d)
+        if keys != set(sts) or len(d) != len(sts):
+            bad.append(("lookup", "indexdict holds %d entries for %d states (%d stale)" % (len(d), len(sts), len(keys - set(sts))),
+                        {"stale": sorted(keys - set(sts))[:5]}))
+    return qs, bad
+
+
+def history_tier(ck, violation, label, crys, chem, jn, cut, jumps, ops, nsites, cid, runs, meta, stats, coq_ok):
+    """one object: generate with growing, SHRINKING ranges and the origin-state flag toggled, interleaved with copy, +=
+    and diffgenerate; after every step the object must be what the Coq state machine (hstep) says -- i.e. equal to a fresh
+    star set of its current range/flag -- with consistent look-ups for every state it ever contained"""
+    from onsager import crystalStars
+    rng = ck.rng
+    Nmax = 3
+    universe = sc.reach_bruteforce(jumps, Nmax, nsites, True)
+    info0 = {"crystal": repr(crys), "label": label, "chem": chem, "cutoff": cut, "tier": "history"}
+    fixed = [[("gen", 2, False), ("gen", 2, True), ("gen", 2, False), ("gen", 1, True), ("copy",), ("gen", 1, False)],
+             [("gen", 3, True), ("gen", 1, True)],
+             [("gen", 1, True), ("gen", 2, True), ("gen", 3, True), ("gen", 1, False), ("gen", 2, False)],
+             [("gen", 2, True), ("gen", 1, False), ("copy",), ("add", 1, True), ("diff",), ("gen", 3, False), ("gen", 0, True), ("gen", 2, True)]]
+    def rnd():
+        h = [("gen", rng.randint(1, 3), rng.random() < 0.5)]
+        for _ in range(rng.randint(3, 6)):
+            r = rng.random()
+            if r < 0.6: h.append(("gen", rng.randint(0, 3), rng.random() < 0.5))
+            elif r < 0.75: h.append(("add", rng.randint(1, 2), rng.random() < 0.5))
+            elif r < 0.9: h.append(("copy",))
+            else: h.append(("diff",))
+        return h
+    for hist in fixed + [rnd() for _ in range(ck.n(1, 3))]:
+        info = dict(info0, history=hist)
+        try:
+            _, N, o = hist[0]
+            S = crystalStars.StarSet(jn, crys, chem, N, originstates=o)
+            coqh = []
+            copies = []
+            desync = False
+            for k, op_ in enumerate(hist[1:], 1):
+                if op_[0] == "gen":
+                    toggled = (op_[1] == N and op_[2] != o)
+                    S.generate(op_[1], originstates=op_[2])
+                    N, o = op_[1], op_[2]                       # the last request decides (C24_history_last_request)
+                    coqh.append("HGen %d%%nat %s" % (op_[1], "true" if op_[2] else "false"))
+                    if toggled:
+                        stats["same-range-flag-changes"] += 1
+                        have = any(x.iszero() for x in S.states)
+                        if have != (o and nsites > 0):
+                            # the request was ignored: report it under its own key, then follow the object as it is so that the
+                            # rest of the history is still judged (the Coq machine is not consulted further for this history)
+                            violation("same-range-flag-ignored", "generate(%d, originstates=%s) on an object of range %d built with "
+                                      "originstates=%s left the origin states %s" % (N, o, N, not o, "in" if have else "out"),
+                                      dict(info, step=k, op=op_))
+                            o = have; desync = True
+                elif op_[0] == "add":
+                    if N + op_[1] > Nmax: continue                     # keep the object inside the explored ranges
+                    other = crystalStars.StarSet(jn, crys, chem, op_[1], originstates=op_[2])
+                    if N < 1: N, o = op_[1], op_[2]
+                    else: N = N + op_[1]
+                    S += other
+                    coqh.append("HAdd %d%%nat %s" % (op_[1], "true" if op_[2] else "false"))
+                elif op_[0] == "copy":
+                    C = S.copy()
+                    copies.append((C, [sc.ps_of(x) for x in S.states], N, o)); continue
+                elif op_[0] == "diff":
+                    if N < 1: continue
+                    D = S.copy(empty=True); D.diffgenerate(S, S)
+                    dsts = [sc.ps_of(x) for x in D.states]
+                    duni = set((a[1], b[1], sc.vsub(b[2], a[2])) for a in universe for b in universe if a[0] == b[0]) if len(universe) <= 120 else set(dsts)
+                    q_, badd = full_lookup_check(D, crys, chem, dsts, duni, rng, 60)
+                    for key, msg, detail in badd: violation("history-diff-" + key, msg, dict(info, step=k), detail)
+                    continue
+                stats["steps"] += 1
+                step = dict(info, step=k, op=op_, N=N, originstates=o)
+                expected = sc.reach_bruteforce(jumps, N, nsites, o)
+                bad, sts, stars = eval_structure(S, crys, chem, ops, expected, "history")
+                if S.Nshells != N: bad.append(("nshells", "Nshells after the history is %r, expected %d" % (S.Nshells, N), {}))
+                qs, bad2 = full_lookup_check(S, crys, chem, sts, universe, rng, ck.n(120, 400))
+                for key, msg, detail in bad + bad2:
+                    violation("history-" + key, msg, step, detail)
+                # copies taken earlier are independent objects: unchanged and still consistent
+                for (C, csts, cN, co) in copies:
+                    if [sc.ps_of(x) for x in C.states] != csts or C.Nshells != cN:
+                        violation("history-copy", "a copy changed when the original was regenerated", step)
+                    else:
+                        q_, badc = full_lookup_check(C, crys, chem, csts, universe, rng, 40)
+                        for key, msg, detail in badc: violation("history-copy-" + key, msg, step, detail)
+                ck.case(key=(label, repr(crys), round(cut, 5), "hist", json.dumps(hist), k), nontrivial=len(stars) >= 2,
+                        kind="history:%dD-%s" % (crys.dim, op_[0]),
+                        sample={"tier": "history", "crystal": label, "history": hist, "step": k, "N": N, "originstates": o,
+                                "Nstates": len(sts)} if stats["steps"] % 37 == 1 else None)
+                if not desync and len(sts) > 0 and coq_ok(len(sts) * (len(coqh) + 2)):
+                    runs.append("run_hist J%d %d%%nat %d%%nat %s [%s] G%d %s %s %s [%s]" % (
+                        cid, nsites, hist[0][1], "true" if hist[0][2] else "false", "; ".join(coqh), cid, sc.c_pslist(sts),
+                        sc.c_natlistlist(stars), sc.c_natlist(S.index),
+                        "; ".join("(%s, %s, %s)" % (sc.c_ps(s_), sc.c_optnat(a), sc.c_optnat(b)) for s_, a, b in qs)))
+                    meta.append(("hist", step, MEANING))
+        except sc.GeometryError:
+            continue
+        except Exception as e:
+            violation("history-exception", "history raised %s: %s" % (type(e).__name__, e), info)
+
+
 def run(ck):
     ck.rule = ("crystal pool (named + random crystal systems, 2-D/3-D, 1-3 atoms of the mobile species, optional spectator "
                "species) x percolating cutoff x N in 0..3 x originstates on/off x jump-network form (dx / lattice); sums "
                "S(N1)+S(N2) with N1+N2<=3(4 in 2-D) and all flag combinations, via __add__ and __iadd__; diffgenerate(S1,S2); "
-               "distinct = distinct (crystal, cutoff, N, flag, operation); non-trivial = at least 2 stars")
+               "distinct = distinct (crystal, cutoff, N, flag, operation); non-trivial = at least 2 stars; history tier: one StarSet "
+               "object through fixed and random histories of generate (growing, shrinking, flag toggled), +=, copy, diffgenerate; "
+               "after every step compared with the Coq state machine / a fresh set and all look-ups of every state ever held")
     ck.trusted += ["harness/starcase.py: integer lattice view of the jump network and of crys.G (checked integer to 1e-8)",
                    "crys.G is the space group (C18); crys.jumpnetwork is complete (C21)"]
     ck.theorems()
     rng = ck.rng
     ncrys = ck.n(17, 160)
-    coq_budget_states = ck.n(30000, 600000)     # total number of states sent to the model
+    coq_budget_states = ck.n(80000, 900000)     # total number of states sent to the model
     max_case_states = ck.n(600, 1600)
     defs, runs, meta = [], [], []
     spent = 0
     skipped = {"nonpercolating": 0, "construct-failed": 0, "geometry": 0, "coq-budget": 0}
     ncase = 0
+    nhist = 0
+    hstats = {"steps": 0, "same-range-flag-changes": 0}
 
     def violation(key, msg, info, detail=None):
         d = dict(info); d.update(detail or {})
@@ -131,7 +261,8 @@ def run(ck):
 
     # fixed corpus first (several sites per cell on a non-cubic lattice: dx and lattice form must agree), then the pool
     import itertools
-    corpus = [(nm,) + gen.named(nm) for nm in ("hcp", "honeycomb", "polar")]
+    corpus = [(nm,) + gen.named(nm) for nm in ("hcp", "honeycomb", "polar")] + \
+             [("chiral-" + nm,) + sc.chiral_crystal(nm)[:2] for nm in ("p4", "P4/m", "P-3")]   # rotation axis without mirrors
     for label, crys, chem in itertools.chain(corpus, gen.pool(rng, ncrys, random_frac=0.55)):
         try:
             net = gen.percolating_network(crys, chem, rng, maxjumps=ck.n(40, 60))
@@ -151,6 +282,14 @@ def run(ck):
         defs.append("Definition J%d : list ps := %s.\nDefinition G%d : list op := [%s].\n" %
                     (cid, sc.c_pslist([(i, j, R) for (i, j, R, t) in jumps]), cid, "; ".join(sc.c_op(g) for g in ops)))
         Nmax = 3
+        if nhist < ck.n(7, 40):
+            nhist += 1
+            def coq_ok(cost):
+                nonlocal spent
+                if cost <= 4 * max_case_states and spent + cost <= coq_budget_states:
+                    spent += cost; return True
+                skipped["coq-budget"] += 1; return False
+            history_tier(ck, violation, label, crys, chem, jn, cut, jumps, ops, nsites, cid, runs, meta, hstats, coq_ok)
         built = {}
         for N in range(0, Nmax + 1):
             for origin in (False, True):
@@ -299,4 +438,5 @@ def run(ck):
     ck.extra["model_cases"] = len(codes)
     ck.extra["model_states_checked"] = spent
     ck.extra["skipped"] = skipped
+    ck.extra["history_tier"] = hstats
     ck.extra["traces_validated_against_impl"] = len(codes)
